@@ -3,9 +3,12 @@ package main
 import (
 	"bytes"
 	"crypto/ed25519"
+	"encoding/hex"
 	"encoding/json"
 	"fmt"
 	"math"
+	"os"
+	"path/filepath"
 	"math/rand"
 	"strings"
 	"time"
@@ -29,6 +32,8 @@ type AdvCase struct {
 	Knobs   []Knob `json:"knobs"`
 	Gated   bool   `json:"gated"`
 	Corrupt int64  `json:"corrupt"` // != 0: seeded byte-level corruption of the encoded token instead of / on top of knobs
+	File    string `json:"file"`    // != "": the bytes of a conformance sample of the repository are the starting point
+	RootPub string `json:"rootpub"`
 }
 
 func msg(parts ...[]byte) []byte { return bytes.Join(parts, nil) }
@@ -673,6 +678,14 @@ func init() {
 		}
 		t := buildAdv(c.Knobs)
 		b := t.bytes
+		if c.File != "" {
+			raw, err := os.ReadFile(filepath.Join(samplesDir(), c.File))
+			if err != nil {
+				return nil, err
+			}
+			pk, _ := hex.DecodeString(c.RootPub)
+			b, t.pub = raw, ed25519.PublicKey(pk)
+		}
 		if c.Corrupt != 0 {
 			b = corrupt(b, c.Corrupt)
 		}
